@@ -96,6 +96,65 @@ Inductive wf : node -> Prop :=
     NoDup (map khead ks) -> tok_last ks ->
     wf (Node key d nm f h ks).
 
+(* ---- facts that do not depend on the filters ---- *)
+Lemma pc_eqb_refl x : pc_eqb x x = true.
+Proof. destruct x as [c|[f|]]; simpl; auto using N.eqb_refl, Nat.eqb_refl. Qed.
+
+Lemma betterb_app a : forall x y, betterb (a ++ x) (a ++ y) = betterb x y.
+Proof.
+  induction a as [|c a IH]; intros x y; simpl; [reflexivity|].
+  rewrite pc_eqb_refl, IH. simpl. destruct c; reflexivity.
+Qed.
+
+
+(* patterns contributed by one child *)
+Definition kid_entries (k : node) : list entry := map (pre (key_pcs k)) (paths k).
+
+Lemma in_kid_entries k p e :
+  In (p, e) (kid_entries k) <-> exists p0, p = key_pcs k ++ p0 /\ In (p0, e) (paths k).
+Proof.
+  unfold kid_entries. rewrite in_map_iff. split.
+  - intros [[p0 e0] [H Hin]]. unfold pre in H. simpl in H. injection H as <- <-. eauto.
+  - intros [p0 [-> Hin]]. exists (p0, e). auto.
+Qed.
+
+
+Lemma head_is_khead k c : nkey k <> [] -> (head_is k c = true <-> khead k = c).
+Proof.
+  unfold head_is, khead. destruct (nkey k) as [|x s]; [contradiction|]. intros _. simpl.
+  apply N.eqb_eq.
+Qed.
+
+Lemma key_ok_tok_head k : key_ok (nkey k) -> (khead k = TOKEN <-> nkey k = tok).
+Proof.
+  intros [Hne [Ht|Hnt]]; unfold khead.
+  - rewrite Ht. simpl. tauto.
+  - destruct (nkey k) as [|x s]; [contradiction|]. simpl. split.
+    + intros ->. exfalso. apply Hnt. now left.
+    + intros E. unfold tok in E. now injection E.
+Qed.
+
+(* first pattern character of an entry of a child *)
+Lemma kid_entry_first k p e :
+  key_ok (nkey k) -> In (p, e) (kid_entries k) ->
+  (nkey k = tok /\ exists p0, p = PW (nflt k) :: p0) \/
+  (nkey k <> tok /\ exists p0, p = PC (khead k) :: p0).
+Proof.
+  intros [Hne Hk] Hin. apply in_kid_entries in Hin. destruct Hin as (p0 & -> & _).
+  unfold key_pcs. destruct (str_eqb_spec (nkey k) tok) as [E|E].
+  - left. split; [exact E|]. simpl. eauto.
+  - right. split; [exact E|]. unfold khead. destruct (nkey k) as [|x s]; [contradiction|].
+    simpl. eauto.
+Qed.
+
+
+Definition kids_entries (ks : list node) : list entry := flat_map kid_entries ks.
+
+Lemma in_kids_entries ks p e :
+  In (p, e) (kids_entries ks) <-> exists k, In k ks /\ In (p, e) (kid_entries k).
+Proof. unfold kids_entries. rewrite in_flat_map. tauto. Qed.
+
+
 (* ------------------------------------------------------------------ *)
 (* the two local loops of get_at as top-level functions                 *)
 (* ------------------------------------------------------------------ *)
@@ -148,15 +207,6 @@ Definition sel_ok (es : list entry) (path : str) (r : gres) : Prop :=
   | None => forall p' e', In (p', e') es -> matchf filt p' path = None
   end.
 
-Lemma pc_eqb_refl x : pc_eqb x x = true.
-Proof. destruct x as [c|[f|]]; simpl; auto using N.eqb_refl, Nat.eqb_refl. Qed.
-
-Lemma betterb_app a : forall x y, betterb (a ++ x) (a ++ y) = betterb x y.
-Proof.
-  induction a as [|c a IH]; intros x y; simpl; [reflexivity|].
-  rewrite pc_eqb_refl, IH. simpl. destruct c; reflexivity.
-Qed.
-
 Lemma wild_step_take f path :
   wild_step filt f path =
   match path with
@@ -169,17 +219,6 @@ Lemma wild_step_take f path :
 Proof.
   destruct path as [|c r]; [reflexivity|]. unfold wild_step, wild_take.
   destruct f as [k|]; [|reflexivity]. now destruct (filt k (c :: r)) as [[v n]|].
-Qed.
-
-(* patterns contributed by one child *)
-Definition kid_entries (k : node) : list entry := map (pre (key_pcs k)) (paths k).
-
-Lemma in_kid_entries k p e :
-  In (p, e) (kid_entries k) <-> exists p0, p = key_pcs k ++ p0 /\ In (p0, e) (paths k).
-Proof.
-  unfold kid_entries. rewrite in_map_iff. split.
-  - intros [[p0 e0] [H Hin]]. unfold pre in H. simpl in H. injection H as <- <-. eauto.
-  - intros [p0 [-> Hin]]. exists (p0, e). auto.
 Qed.
 
 (* a literal child: its entries on a path *)
@@ -254,43 +293,9 @@ Proof.
   destruct (N.eqb_spec c0 x); [congruence | reflexivity].
 Qed.
 
-Lemma head_is_khead k c : nkey k <> [] -> (head_is k c = true <-> khead k = c).
-Proof.
-  unfold head_is, khead. destruct (nkey k) as [|x s]; [contradiction|]. intros _. simpl.
-  apply N.eqb_eq.
-Qed.
-
-Lemma key_ok_tok_head k : key_ok (nkey k) -> (khead k = TOKEN <-> nkey k = tok).
-Proof.
-  intros [Hne [Ht|Hnt]]; unfold khead.
-  - rewrite Ht. simpl. tauto.
-  - destruct (nkey k) as [|x s]; [contradiction|]. simpl. split.
-    + intros ->. exfalso. apply Hnt. now left.
-    + intros E. unfold tok in E. now injection E.
-Qed.
-
-(* first pattern character of an entry of a child *)
-Lemma kid_entry_first k p e :
-  key_ok (nkey k) -> In (p, e) (kid_entries k) ->
-  (nkey k = tok /\ exists p0, p = PW (nflt k) :: p0) \/
-  (nkey k <> tok /\ exists p0, p = PC (khead k) :: p0).
-Proof.
-  intros [Hne Hk] Hin. apply in_kid_entries in Hin. destruct Hin as (p0 & -> & _).
-  unfold key_pcs. destruct (str_eqb_spec (nkey k) tok) as [E|E].
-  - left. split; [exact E|]. simpl. eauto.
-  - right. split; [exact E|]. unfold khead. destruct (nkey k) as [|x s]; [contradiction|].
-    simpl. eauto.
-Qed.
-
 (* ------------------------------------------------------------------ *)
 (* the children loop                                                    *)
 (* ------------------------------------------------------------------ *)
-
-Definition kids_entries (ks : list node) : list entry := flat_map kid_entries ks.
-
-Lemma in_kids_entries ks p e :
-  In (p, e) (kids_entries ks) <-> exists k, In k ks /\ In (p, e) (kid_entries k).
-Proof. unfold kids_entries. rewrite in_flat_map. tauto. Qed.
 
 (* the wildcard child is the last one *)
 Lemma wild_of_spec path i ks :
